@@ -81,20 +81,25 @@ void cfgs_discover(void);
 struct tramp_ctx {
         uint64_t fn;          /*   0 */
         uint64_t nargs;       /*   8 */
-        uint64_t args[16];    /*  16 */
-        uint64_t canary[6];   /* 144 rbx rbp r12 r13 r14 r15 */
-        uint64_t flags;       /* 192 bit0 zero vector regs, bit1 fill+copy stack window */
-        uint64_t veclevel;    /* 200 0 sse, 1 avx, 2 avx512 */
-        uint32_t mxcsr_in;    /* 208 */
-        uint32_t mxcsr_out;   /* 212 */
-        uint64_t rsp_before;  /* 216 */
-        uint64_t out_gpr[16]; /* 224 rax rbx rcx rdx rsi rdi rbp rsp r8..r15 */
-        uint64_t out_rflags;  /* 352 */
-        uint64_t stackcopy;   /* 360 */
-        uint64_t kregs[8];    /* 368 */
-        uint64_t pad[2];      /* 432 */
-        uint8_t vec[32 * 64]; /* 448 */
+        uint64_t args[40];    /*  16 */
+        uint64_t canary[6];   /* 336 rbx rbp r12 r13 r14 r15 */
+        uint64_t flags;       /* 384 bit0 zero vector regs, bit1 fill+copy stack window */
+        uint64_t veclevel;    /* 392 0 sse, 1 avx, 2 avx512 */
+        uint32_t mxcsr_in;    /* 400 */
+        uint32_t mxcsr_out;   /* 404 */
+        uint64_t rsp_before;  /* 408 */
+        uint64_t out_gpr[16]; /* 416 rax rbx rcx rdx rsi rdi rbp rsp r8..r15 */
+        uint64_t out_rflags;  /* 544 */
+        uint64_t stackcopy;   /* 552 */
+        uint64_t kregs[8];    /* 560 */
+        uint64_t pad[2];      /* 624 */
+        uint8_t vec[32 * 64]; /* 640 */
 } __attribute__((aligned(64)));
+_Static_assert(__builtin_offsetof(struct tramp_ctx, canary) == 336, "tramp layout");
+_Static_assert(__builtin_offsetof(struct tramp_ctx, rsp_before) == 408, "tramp layout");
+_Static_assert(__builtin_offsetof(struct tramp_ctx, out_gpr) == 416, "tramp layout");
+_Static_assert(__builtin_offsetof(struct tramp_ctx, kregs) == 560, "tramp layout");
+_Static_assert(__builtin_offsetof(struct tramp_ctx, vec) == 640, "tramp layout");
 #define TRAMP_STACK_WINDOW 65536
 uint64_t imbv_tramp(struct tramp_ctx *c);
 #define TF_ZEROVEC 1
@@ -271,6 +276,9 @@ struct genopt {
         int iv_len;      /* 0 default/random permitted */
         int off;         /* -1 random small offset, else cipher/hash offset */
         int max_len;     /* cap for random lengths (0 -> 320) */
+        const uint8_t *ckey; /* fixed cipher key (32 bytes) or NULL */
+        const uint8_t *akey; /* fixed auth key (32 bytes) or NULL */
+        const uint8_t *fix_iv; /* fixed IV bytes (MAX_IV) or NULL */
 };
 void genopt_default(struct genopt *g);
 int item_gen(struct item *it, const struct suite *cs, const struct suite *hs, struct rng *r,
@@ -291,6 +299,18 @@ int imbv_custom_cipher(IMB_JOB *job);
 int imbv_custom_hash(IMB_JOB *job);
 int item_permitted_tag_lens(IMB_HASH_ALG h, int *l);
 void refs_selftest_or_die(void);
+
+/* constraint catalogue (eng_reject.c) */
+struct pert {
+        char name[64];
+        int nacc;
+        int acc[4]; /* acceptable error codes; -1 = any non-zero */
+        int expect_valid; /* boundary value that must be ACCEPTED */
+};
+int imbv_perturb(const struct item *it, int idx, IMB_JOB *job, struct pert *p, const void **des3_tmp);
+#ifdef IMB_VERIF
+void imb_verif_set_cpu_feature_mask(const uint64_t mask);
+#endif
 
 /* ------------------------------------------------------------------ engines */
 typedef int (*engine_fn)(void);
